@@ -287,6 +287,7 @@ class GlobalState(object):
         for mod in (blacklist, filters):
             for k, tbl in _module_tables(mod).items():
                 self.saved.append((tbl, _copy(tbl)))
+        self.enabled_obj = dr.ENABLED           # insights.apply_default_enabled REBINDS dr.ENABLED to a new defaultdict
         self.enabled = dict(dr.ENABLED)
         self.by_name = set(dr.COMPONENTS_BY_NAME)
         self.imp = set(dr.COMPONENT_IMPORT_CACHE)
@@ -296,6 +297,7 @@ class GlobalState(object):
         from insights.core import dr
         for tbl, old in self.saved:
             _restore(tbl, old)
+        dr.ENABLED = self.enabled_obj
         dr.ENABLED.clear()
         dr.ENABLED.update(self.enabled)
         for n in set(dr.COMPONENTS_BY_NAME) - self.by_name:
